@@ -31,7 +31,7 @@ func genStack(g *genCtx) {
 		g.op("new size=%d", []int{0, 0, 1, 2, 8, 64}[r.intn(6)])
 		stream := r.intn(3) // 0 balanced, 1 push-heavy then drain, 2 pop-heavy (often empty)
 		pushed := 0
-		for i := 0; i < r.rangeIn(1, maxOps); i++ {
+		for i, iN := 0, r.rangeIn(1, maxOps); i < iN; i++ {
 			x := r.intn(100)
 			pp := []int{45, 65, 25}[stream]
 			switch {
